@@ -38,7 +38,7 @@ m = {
                  "kind_free_text": "TLA+ specification checked by TLC; bound to the implementation by trace validation / replay (harness/)"} for k, v in sorted(engines.items())],
     "checks": checks,
     "not_applicable": na,
-    "notes": "Model-based verification with explicit TLA+ specifications (spec/*.tla). Every check: TLC on the design-level module, then conformance (implementation observations validated by a Trace_* module and/or TLC behaviours replayed into the code with numeric oracles). See DESIGN.md.",
+    "notes": "Model-based verification with explicit TLA+ specifications (spec/*.tla). Every check: TLC on the design-level module, then conformance (implementation observations validated by a Trace_* module and/or TLC behaviours replayed into the code with numeric oracles). See DESIGN.md.  System coverage beyond the listed properties (spec/OrbSelect.tla: which orbital a training-data request means; ./check_sys SYS01, evidence in evidence_sys/) is deliberately NOT registered as a check of any listed property (DESIGN section 6b).",
 }
 json.dump(m, open(os.path.join(here, "MANIFEST.json"), "w"), indent=1)
 print("checks:", [c["property_id"] for c in checks], "na:", len(na))
